@@ -114,6 +114,10 @@ pub enum Op {
     RemoveStep { step: usize },
     /// move output number `idx` (modulo the implicit outputs) of `from` to step `to`
     MoveOut { from: usize, to: usize, #[serde(default)] idx: usize },
+    /// exchange implicit outputs between two steps (both keep their output count)
+    SwapOut { a: usize, b: usize, ia: usize, ib: usize },
+    /// give output number `idx` of a step a new name (the output count stays)
+    RenameOut { step: usize, idx: usize, name: String },
     /// add an output to a step
     AddOut { step: usize, name: String, #[serde(default)] front: bool },
     SetPoolDepth { pool: usize, depth: usize },
@@ -168,6 +172,8 @@ pub struct Profile {
     pub target_pct: u64,
     pub gen_pct: u64,
     pub wide_pct: u64,
+    /// share of projects with 90..170 mostly independent steps, run with -j 58..117
+    pub huge_pct: u64,
     pub trunc_pct: u64,
     pub spell_pct: u64,
     pub final_clean_invocations: usize,
@@ -205,6 +211,7 @@ impl Profile {
             target_pct: 50,
             gen_pct: 0,
             wide_pct: 10,
+            huge_pct: 0,
             trunc_pct: 2,
             spell_pct: 70,
             final_clean_invocations: 0,
@@ -215,11 +222,13 @@ impl Profile {
         match p {
             "C01" => {
                 f.name = "C01";
+                f.gen_pct = 15;
                 f.crash_pct = 2;
                 f.dbcrash_pct = 0;
                 f.ioerr_pct = 0;
                 f.big_pct = 20;
                 f.wide_pct = 20;
+                f.huge_pct = 1;
             }
             "C02" => {
                 f.name = "C02";
@@ -243,6 +252,7 @@ impl Profile {
                 f.gen_pct = 15;
                 f.pool_pct = 80;
                 f.wide_pct = 60;
+                f.huge_pct = 3;
                 f.nopool_pct = 15;
                 f.crash_pct = 1;
                 f.dbcrash_pct = 0;
@@ -260,6 +270,8 @@ impl Profile {
             }
             "C06" => {
                 f.name = "C06";
+                f.gen_pct = 25;
+                f.default_pct = 35;
                 f.cycle_pct = 25;
                 f.fail_pct = 40;
                 f.big_pct = 20;
@@ -325,7 +337,7 @@ impl Profile {
                 f.altname_pct = 40;
                 f.use_c_pct = 40;
                 f.struct_pct = 20;
-                f.gen_pct = 10;
+                f.gen_pct = 25;
             }
             "C19" => {
                 f.name = "C19";
@@ -430,8 +442,9 @@ pub fn gen_project(r: &mut Rng, pf: &Profile) -> Project {
         }
     }
     let big = r.pct(pf.big_pct);
-    let n = 1 + r.below(if big { pf.max_steps * 3 } else { pf.max_steps });
-    let wide = r.pct(pf.wide_pct);
+    let huge = r.pct(pf.huge_pct);
+    let n = if huge { 90 + r.below(81) } else { 1 + r.below(if big { pf.max_steps * 3 } else { pf.max_steps }) };
+    let wide = huge || r.pct(pf.wide_pct);
     let mut steps: Vec<Step> = Vec::new();
     for k in 0..n {
         let phony = r.pct(12);
@@ -448,7 +461,7 @@ pub fn gen_project(r: &mut Rng, pf: &Profile) -> Project {
         let nexp = 1 + r.below(nouts);
         let mut cand_all: Vec<String> = srcs.iter().map(|s| s.name.clone()).collect();
         let mut cand_dirty = cand_all.clone();
-        if !wide || r.pct(30) {
+        if !wide || r.pct(if huge { 8 } else { 30 }) {
             for s in &steps {
                 for o in &s.outs {
                     cand_all.push(o.clone());
@@ -502,6 +515,7 @@ pub fn gen_project(r: &mut Rng, pf: &Profile) -> Project {
             removed: false,
             generator: false,
             touches: None,
+            nl: 0,
         });
     }
     let allouts: Vec<(usize, String)> = steps
@@ -530,7 +544,7 @@ pub fn gen_project(r: &mut Rng, pf: &Profile) -> Project {
             steps[k].depmode = if r.pct(70) { 1 } else { 2 };
         }
         steps[k].restat = r.pct(15);
-        if r.pct(pf.pool_pct) && !pools.is_empty() {
+        if r.pct(if huge { pf.pool_pct / 8 } else { pf.pool_pct }) && !pools.is_empty() {
             steps[k].pool = Some(pools[r.below(pools.len())].0.clone());
         } else if r.pct(5) {
             steps[k].pool = Some("console".into());
@@ -549,6 +563,9 @@ pub fn gen_project(r: &mut Rng, pf: &Profile) -> Project {
             steps[k].decor = DECORS[r.below(DECORS.len())].to_string();
         }
         steps[k].hide_success = r.pct(8);
+        if r.pct(pf.weird_pct / 2 + 3) {
+            steps[k].nl = if steps[k].rsp.is_some() { 2 } else { 1 };
+        }
     }
     // the same file named twice among a step's inputs (CMake does this): in two sections or twice in one
     for k in 0..n {
@@ -819,6 +836,50 @@ pub fn apply_abstract(p: &mut Project, op: &Op) -> bool {
             }
             true
         }
+        Op::SwapOut { a, b, ia, ib } => {
+            if *a >= p.steps.len() || *b >= p.steps.len() || a == b {
+                return false;
+            }
+            let (f, t) = (&p.steps[*a], &p.steps[*b]);
+            if f.removed || t.removed || f.phony || t.phony || f.generator || t.generator {
+                return false;
+            }
+            if f.outs.len() < 2 && t.outs.len() < 2 {
+                return false; // (that would be a plain exchange of two whole steps' outputs)
+            }
+            let pa = ia % f.outs.len();
+            let pb = ib % t.outs.len();
+            let (oa, ob) = (f.outs[pa].clone(), t.outs[pb].clone());
+            p.steps[*a].outs[pa] = ob.clone();
+            p.steps[*b].outs[pb] = oa.clone();
+            let cyc = p.order_anc(*a).contains(a) || p.order_anc(*b).contains(b);
+            let self_in = |s: &Step| s.exp.iter().chain(&s.imp).chain(&s.oo).chain(&s.val).any(|x| s.outs.contains(x));
+            if cyc || self_in(&p.steps[*a]) || self_in(&p.steps[*b]) {
+                p.steps[*a].outs[pa] = oa;
+                p.steps[*b].outs[pb] = ob;
+                return false;
+            }
+            true
+        }
+        Op::RenameOut { step, idx, name } => {
+            if *step >= p.steps.len() || p.steps[*step].removed || p.steps[*step].phony || p.steps[*step].generator {
+                return false;
+            }
+            if p.producer(name).is_some() || p.src(name).is_some() {
+                return false;
+            }
+            let pos = idx % p.steps[*step].outs.len();
+            let old = p.steps[*step].outs[pos].clone();
+            // only outputs nothing else refers to
+            let used = p.live_steps().any(|(_, t)| t.exp.iter().chain(&t.imp).chain(&t.oo).chain(&t.val).any(|f| *f == old))
+                || p.defaults.contains(&old)
+                || p.srcs.iter().any(|s| s.incs.contains(&old));
+            if used {
+                return false;
+            }
+            p.steps[*step].outs[pos] = name.clone();
+            true
+        }
         Op::AddOut { step, name, front } => {
             if *step >= p.steps.len() || p.steps[*step].removed || p.steps[*step].phony || p.steps[*step].generator {
                 return false;
@@ -929,7 +990,13 @@ fn gen_invoke(r: &mut Rng, p: &Project, pf: &Profile, sub: u64, stale: &[String]
     }
     InvokeSpec {
         targets,
-        j: if r.pct(15) { 1 } else { 1 + r.below(8) },
+        j: if p.live_steps().count() >= 60 && r.pct(80) {
+            58 + r.below(60)
+        } else if r.pct(15) {
+            1
+        } else {
+            1 + r.below(8)
+        },
         k: if r.pct(pf.k_pct) { Some(1 + r.below(4)) } else { None },
         policy: r.below(8) as u8,
         sub,
@@ -955,7 +1022,13 @@ fn gen_edit(r: &mut Rng, p: &Project, pf: &Profile, next_id: &mut usize) -> Opti
     let y = r.below(100) as u64;
     let structural = r.pct(pf.struct_pct);
     if structural {
-        return Some(match r.below(8) {
+        return Some(match r.below(10) {
+            9 => Op::SwapOut { a: r.below(nsteps), b: r.below(nsteps), ia: r.below(4), ib: r.below(4) },
+            8 => {
+                let id = *next_id;
+                *next_id += 1;
+                Op::RenameOut { step: r.below(nsteps), idx: r.below(4), name: format!("y{}", id) }
+            }
             7 => {
                 if p.pools.is_empty() {
                     return None;
@@ -1008,6 +1081,7 @@ fn gen_edit(r: &mut Rng, p: &Project, pf: &Profile, next_id: &mut usize) -> Opti
                         removed: false,
                         generator: false,
                         touches: None,
+                        nl: 0,
                     },
                     pos: r.below(p.order.len() + 1),
                 }
@@ -1103,7 +1177,8 @@ fn add_generator(p: &mut Project, r: &mut Rng) {
     p.srcs.push(Src { name: "gen.in".into(), ver: 0, incs: vec![], soft: false, exists: true, tag: "#variant=0".into(), mg: false });
     p.steps.push(Step {
         id,
-        outs: vec![p.manifest.clone(), format!("{}.inc0", p.manifest), format!("{}.inc1", p.manifest)],
+        // sometimes the manifest is the generator's only output (a single-file manifest)
+        outs: if r.pct(35) { vec![p.manifest.clone()] } else { vec![p.manifest.clone(), format!("{}.inc0", p.manifest), format!("{}.inc1", p.manifest)] },
         nexp: 1,
         exp: vec!["gen.in".into()],
         imp,
@@ -1120,6 +1195,7 @@ fn add_generator(p: &mut Project, r: &mut Rng) {
         removed: false,
         generator: true,
         touches: None,
+        nl: 0,
     });
     let idx = p.steps.len() - 1;
     let pos = r.below(p.order.len() + 1);
@@ -1150,13 +1226,28 @@ pub fn gen_scenario(seed: u64, pf: &Profile) -> Scenario {
             for _ in 0..1 + r.below(3) {
                 if let Some(op) = gen_edit(&mut r, &v, &pf2, &mut next_id) {
                     match op {
-                        Op::Salt { .. } | Op::AddStep { .. } | Op::RemoveStep { .. } | Op::MoveOut { .. } | Op::AddOut { .. } | Op::Decor { .. } | Op::RspVer { .. } | Op::SetPoolDepth { .. } | Op::SetDefaults { .. } => {
+                        Op::Salt { .. } | Op::AddStep { .. } | Op::RemoveStep { .. } | Op::MoveOut { .. } | Op::SwapOut { .. } | Op::RenameOut { .. } | Op::AddOut { .. } | Op::Decor { .. } | Op::RspVer { .. } | Op::SetPoolDepth { .. } | Op::SetDefaults { .. } => {
                             apply_abstract(&mut v, &op);
                         }
                         Op::Respell { order_seed, spell } => {
                             apply_abstract(&mut v, &Op::Respell { spell, order_seed });
                         }
                         _ => {}
+                    }
+                }
+            }
+            // the regenerated manifest may declare its own generator step differently
+            // (e.g. a generator that lists the files it read as implicit inputs)
+            if r.pct(30) {
+                let shareable: Vec<String> = v.srcs.iter().map(|s| s.name.clone()).filter(|n| !n.starts_with("psrc") && !n.starts_with("priv") && n != "gen.in").collect();
+                if let Some(g) = v.steps.iter_mut().find(|s| s.generator) {
+                    if !g.imp.is_empty() && r.pct(40) {
+                        g.imp.pop();
+                    } else if !shareable.is_empty() {
+                        let n = shareable[r.below(shareable.len())].clone();
+                        if !g.imp.contains(&n) {
+                            g.imp.push(n);
+                        }
                     }
                 }
             }
@@ -1200,7 +1291,7 @@ pub fn gen_scenario(seed: u64, pf: &Profile) -> Scenario {
             if with_gen {
                 // structural edits go through the generator only
                 match op {
-                    Op::Salt { .. } | Op::AddStep { .. } | Op::RemoveStep { .. } | Op::MoveOut { .. } | Op::AddOut { .. } | Op::Respell { .. } | Op::Decor { .. } | Op::RspVer { .. } | Op::SetPoolDepth { .. } | Op::SetDefaults { .. } => continue,
+                    Op::Salt { .. } | Op::AddStep { .. } | Op::RemoveStep { .. } | Op::MoveOut { .. } | Op::SwapOut { .. } | Op::RenameOut { .. } | Op::AddOut { .. } | Op::Respell { .. } | Op::Decor { .. } | Op::RspVer { .. } | Op::SetPoolDepth { .. } | Op::SetDefaults { .. } => continue,
                     _ => {}
                 }
             }
